@@ -1051,7 +1051,7 @@ func TestVerif_C13(t *testing.T) {
 		pre158, berlin, amsterdam := &c13RuleSets[0], &c13RuleSets[1], &c13RuleSets[2]
 		if r.Quick() {
 			r.Bound("acct_depth", 4)
-			r.Bound("acct_depth_other_rules", 3)
+			r.Bound("acct_depth_pre158_amsterdam", 3)
 			r.Bound("deep_depth", 5)
 			r.Bound("aux_depth", 4)
 			// refund, logs, transient storage, access list under snapshots
